@@ -174,20 +174,35 @@ def _sum_facts(model, table):
         raise AnalysisError("simplifying map_sum: helper not found")
     ok_rest = False
     guard_ok = True
-    for ps in summarize(inner[0], plain=True, node_param="expr"):
+    from ..summary import facts_of
+    hparam = inner[0].args.args[0].arg
+    KIDS = ("attr", NODE, "children")
+    for ps in summarize(inner[0], plain=True, node_param=hparam):
         if ps.term != "return":
             continue
         if ps.retval == ("const", None):
             continue
-        guards = " ".join(ast.unparse(t) for t, pol, v in ps.conds if pol
-                          and hasattr(t, "lineno"))
-        if not ("isinstance(expr, Product)" in guards
-                and "is_zero(expr.children[0] + 1)" in guards):
+        is_product = minus_first = False
+        for _, pol0, v0 in ps.conds:
+            if not isinstance(v0, tuple):
+                continue
+            for v, pol in facts_of(v0, pol0):
+                if not (pol and isinstance(v, tuple)):
+                    continue
+                if v[0] == "call" and v[1] == "isinstance" and v[2][0] == NODE \
+                        and v[2][1] == ("global", "Product"):
+                    is_product = True
+                if v[0] == "call" and v[1] == "is_zero" and len(v[2]) == 1 and \
+                        v[2][0] in (
+                            ("binop", "Add", ("index", KIDS, 0), ("const", 1)),
+                            ("binop", "Add", ("const", 1), ("index", KIDS, 0))):
+                    minus_first = True
+        if not (is_product and minus_first):
             guard_ok = False
         rv = ps.retval
-        if rv == ("index", ("attr", NODE, "children"), 1) or (
+        if rv == ("index", KIDS, 1) or (
                 rv[0] == "call" and rv[1] == "Product" and rv[2] == (
-                    ("slice", ("attr", NODE, "children"), ("const", 1), None),)):
+                    ("slice", KIDS, ("const", 1), None),)):
             ok_rest = True
         else:
             guard_ok = False
@@ -415,11 +430,63 @@ def _cse_bookkeeping(ctx, model):
            f"{hit} hit and {miss} miss path(s)" if hit and miss else
            "map_common_subexpression lacks its hit or miss path")
     # name generators yield distinct names with the prefix
-    gens = [f for f in ast.walk(mem.node) if isinstance(f, ast.FunctionDef)
-            and f is not mem.node]
-    ok = len(gens) == 2 and all(any(isinstance(x, ast.While) for x in ast.walk(g))
-                                and any(isinstance(x, ast.AugAssign)
-                                        for x in ast.walk(g)) for g in gens)
+    # (the generator(s) the candidate loop draws from: local functions or
+    # methods of the class; each must have an unbounded loop that yields a value
+    # depending on a counter it advances)
+    local_fns = {f.name: f for f in ast.walk(mem.node)
+                 if isinstance(f, ast.FunctionDef) and f is not mem.node}
+    methods = {}
+    for k in reversed([x for x in model.mro(cm) if not isinstance(x, str)]):
+        for nm_, mm_ in k.members.items():
+            if mm_.kind == "func":
+                methods[nm_] = mm_.node
+    called = set()
+    for lp in ast.walk(mem.node):
+        if isinstance(lp, ast.For) and isinstance(lp.iter, ast.Call):
+            f_ = lp.iter.func
+            if isinstance(f_, ast.Name) and f_.id in local_fns:
+                called.add(f_.id)
+            elif isinstance(f_, ast.Attribute) and isinstance(
+                    f_.value, ast.Name) and f_.value.id == "self" and \
+                    f_.attr in methods:
+                called.add("self." + f_.attr)
+    gens = []
+    for nm_ in called:
+        if nm_.startswith("self."):
+            gens.append(methods[nm_[5:]])
+        else:
+            # every local definition of that name (one per branch)
+            gens.extend(f for f in ast.walk(mem.node)
+                        if isinstance(f, ast.FunctionDef) and f.name == nm_)
+    if not gens:
+        raise AnalysisError("map_common_subexpression: the generator of candidate "
+                            "names was not found")
+
+    def unbounded(g):
+        """every way through g reaches a `while True` that yields a value built
+        from a counter the loop advances"""
+        loops_ = [w for w in ast.walk(g) if isinstance(w, ast.While)
+                  and isinstance(w.test, ast.Constant) and w.test.value is True]
+        if not loops_:
+            return False
+        for w in loops_:
+            incs = {a.target.id for a in ast.walk(w) if isinstance(
+                a, ast.AugAssign) and isinstance(a.target, ast.Name)}
+            ys = [y for y in ast.walk(w) if isinstance(y, ast.Yield)
+                  and y.value is not None]
+            if not ys or not any(isinstance(n_, ast.Name) and n_.id in incs
+                                 for y in ys for n_ in ast.walk(y.value)):
+                return False
+        # one unbounded loop per top-level branch of the generator
+        tops = [st for st in g.body if isinstance(st, ast.If)]
+        if tops:
+            for st in tops:
+                for branch in (st.body, st.orelse):
+                    if branch and not any(isinstance(x, ast.While)
+                                          for b_ in branch for x in ast.walk(b_)):
+                        return False
+        return True
+    ok = all(unbounded(g) for g in gens)
     ctx.ob("P/c-cse/name-generators", ok, loc,
            "name generators enumerate an unbounded family of candidates" if ok else
            "the CSE name generators do not enumerate ever new candidates")
@@ -510,58 +577,45 @@ def _cse_bookkeeping(ctx, model):
 
 def _copy_map_restricted(ctx, cm, cp, loc):
     """a copy that may be given another assignment list keeps only the
-    expression->name entries whose name has an assignment in *its own* list"""
+    expression->name entries whose name has an assignment in *its own* list
+    (path rule: the entries that reach the copy's map pass a membership test
+    against names of the copy, not of the original)"""
     fn = cp.node
     params = [a.arg for a in fn.args.args[1:]]
     if not params:
         return          # the list cannot be replaced: nothing to restrict
-    # names derived from the parameter or from the new mapper object
-    derived = set(params)
-    result_vars = set()
-    for st in ast.walk(fn):
-        if isinstance(st, ast.Assign) and isinstance(st.value, ast.Call) and \
-                ast.unparse(st.value.func) in ("CCodeMapper", "type(self)",
-                                               "self.__class__"):
-            result_vars.update(t.id for t in st.targets if isinstance(t, ast.Name))
-    derived |= result_vars
-    for _ in range(3):
-        for st in ast.walk(fn):
-            if isinstance(st, ast.Assign) and any(
-                    isinstance(x, ast.Name) and x.id in derived
-                    for x in ast.walk(st.value)) and not any(
-                    isinstance(x, ast.Name) and x.id == "self"
-                    for x in ast.walk(st.value)):
-                derived.update(t.id for t in st.targets if isinstance(t, ast.Name))
-    comps = []
-    for st in ast.walk(fn):
-        if isinstance(st, ast.Assign) and any(
-                isinstance(t, ast.Attribute) and t.attr == "cse_to_name"
-                and isinstance(t.value, ast.Name) and t.value.id in result_vars
-                for t in st.targets):
-            comps.append(st.value)
-    if not comps:
+    OWN = ("self", "cse_to_name")
+    n = 0
+    ok = True
+    for ps in summarize(fn, node_param=False, loop_mode="1"):
+        for e in ps.events:
+            if not (e.kind == "attrwrite" and e.name == "cse_to_name"):
+                continue
+            v = e.value
+            if not contains(v, lambda t: t == OWN):
+                continue         # (the path on which nothing is carried over)
+            n += 1
+            filters = [getattr(c, "val", None) for c in (v[4] if v[0] == "dict"
+                                                         and len(v) > 4 else ())]
+            filters += [c for _, pol, c in ps.conds if pol]
+            good = False
+            for f in filters:
+                if isinstance(f, tuple) and f[0] == "compare" and \
+                        f[1] == ("In",) and f[2] == ("val", OWN):
+                    right = f[3][0]
+                    from_self = contains(right, lambda t: t[0] == "self") and \
+                        not contains(right, lambda t: t[0] == "call")
+                    if not from_self and right != ("self", "cse_names"):
+                        good = True
+            ok = ok and good
+    if n == 0:
         return          # carried some other way; judged by the rule above
-    for v in comps:
-        if not isinstance(v, ast.DictComp):
-            raise AnalysisError("CCodeMapper.copy: the carried cse_to_name is not "
-                                "a dict comprehension")
-        ok = False
-        for g in v.generators:
-            for cond in g.ifs:
-                for c in ast.walk(cond):
-                    if isinstance(c, ast.Compare) and any(
-                            isinstance(o, ast.In) for o in c.ops):
-                        right = c.comparators[-1]
-                        names = {x.id for x in ast.walk(right)
-                                 if isinstance(x, ast.Name)}
-                        if names & derived and "self" not in names:
-                            ok = True
-        ctx.ob("S/c-cse/copy/map-restricted-to-own-list", ok, loc,
-               "the copy keeps a name only if its own list assigns it" if ok else
-               "CCodeMapper.copy(cse_name_list) carries expression->name entries "
-               "without restricting them to the names assigned in the list the "
-               "copy receives: given a shorter list, the copy uses a hoisted name "
-               "that is never assigned")
+    ctx.ob("S/c-cse/copy/map-restricted-to-own-list", ok, loc,
+           "the copy keeps a name only if its own list assigns it" if ok else
+           "CCodeMapper.copy(cse_name_list) carries expression->name entries "
+           "without restricting them to the names assigned in the list the "
+           "copy receives: given a shorter list, the copy uses a hoisted name "
+           "that is never assigned")
 
 
 def _mentions_param(v, param):
